@@ -97,4 +97,12 @@ theorem source_active_safety_encoders_total (fuel : Nat) :
    fun p h => (Go.X.isOk_iff _).mp (Gen.GoModel.P0x9208_Encode_total fuel p h),
    fun t h hl => (Go.X.isOk_iff _).mp (Gen.GoModel.T0x1210_Encode_total fuel t h hl)⟩
 
+/-- file information 0x1211 (and 0x1212, which shares the layout): name length, name, type, size — `Parse(Encode(v)) = v` on
+the translated code for every name whose length is in the length byte, every type and size -/
+theorem source_1211_roundtrip (fuel : Nat) (j : Gen.GoFrame.jt808_JTMessage) (t q : Gen.GoModel.model_T0x1211)
+    (hl : t.FileNameLen.toNat = t.FileName.length) :
+    ∃ body, Gen.GoModel.model_T0x1211_Encode fuel t = .ok body ∧
+      ∃ r, Gen.GoModel.model_T0x1211_Parse fuel q { j with Body := body } = .ok (r, none) ∧ r.FileNameLen = t.FileNameLen ∧ r.FileName = t.FileName ∧ r.FileType = t.FileType ∧ r.FileSize = t.FileSize :=
+  Gen.GoModel.T0x1211_roundtrip fuel t q j hl
+
 end JT.C07
